@@ -15,12 +15,12 @@ type Sx struct {
 	L    []Sx
 }
 
-func N(v uint64) Sx       { return Sx{Kind: 'n', N: new(big.Int).SetUint64(v)} }
-func NI(v int) Sx         { return N(uint64(v)) }
-func NBig(v *big.Int) Sx  { return Sx{Kind: 'n', N: v} }
-func B(b []byte) Sx       { return Sx{Kind: 'b', B: b} }
-func S(s string) Sx       { return Sx{Kind: 'b', B: []byte(s)} }
-func L(items ...Sx) Sx    { return Sx{Kind: 'l', L: items} }
+func N(v uint64) Sx      { return Sx{Kind: 'n', N: new(big.Int).SetUint64(v)} }
+func NI(v int) Sx        { return N(uint64(v)) }
+func NBig(v *big.Int) Sx { return Sx{Kind: 'n', N: v} }
+func B(b []byte) Sx      { return Sx{Kind: 'b', B: b} }
+func S(s string) Sx      { return Sx{Kind: 'b', B: []byte(s)} }
+func L(items ...Sx) Sx   { return Sx{Kind: 'l', L: items} }
 func Bool(b bool) Sx {
 	if b {
 		return N(1)
@@ -57,10 +57,10 @@ func (s Sx) write(sb *strings.Builder) {
 	}
 }
 
-func (s Sx) U64() uint64 { return s.N.Uint64() }
-func (s Sx) Int() int    { return int(s.N.Int64()) }
+func (s Sx) U64() uint64  { return s.N.Uint64() }
+func (s Sx) Int() int     { return int(s.N.Int64()) }
 func (s Sx) IsTrue() bool { return s.N.Sign() != 0 }
-func (s Sx) Str() string { return string(s.B) }
+func (s Sx) Str() string  { return string(s.B) }
 
 func ParseSx(in string) (Sx, error) {
 	p := &sxParser{s: in}
